@@ -24,26 +24,30 @@ def beVersion : Nat → Nat
 def maxFragments : Nat := 32
 def backendsMax : Nat := 9
 
+/-- the backend's `init`: the word size it stores back into the arguments, or `none` when it
+    refuses the shape (null.c, flat_xor_hd.c / init_xor_hd_code, rs_vand adapter, isa_l_common.c). -/
+def backendInit (id : Nat) (k m w hd : Int) : Option Nat :=
+  match id with
+  | 0 =>
+    let w' := if w ≤ 0 then 32 else w
+    if w' != 8 && w' != 16 && w' != 32 then none else some 32
+  | 3 => if xorShapeOK k m hd then some 32 else none
+  | 6 => some 16
+  | 4 | 7 =>
+    -- isa_l_common_init: w defaults to 8, k + m must not exceed 2^w; w is stored as given
+    let w' := if w ≤ 0 then 8 else w
+    if w' ≥ 63 || k + m > (2 : Int) ^ w'.toNat then none else some w'.toNat
+  | _ => none
+
 /-- `liberasurecode_instance_create(id, {k, m, w, hd, ct})`.
     `avail id` says whether the backend's shared library can be opened. -/
 def create (avail : Nat → Bool) (id k m w hd : Int) (ct : Nat) : Except Int Inst :=
   if id < 0 || id ≥ (backendsMax : Int) then .error (-EBACKENDNOTSUPP) else
   if k < 1 || m < 0 then .error (-EINVALIDPARAMS) else
   if k + m > (maxFragments : Int) then .error (-EINVALIDPARAMS) else
-  let idN := id.toNat
-  if !avail idN then .error (-EBACKENDNOTAVAIL) else
-  let mk (w : Nat) : Except Int Inst :=
-    .ok { beId := idN, beVer := beVersion idN, k := k.toNat, m := m.toNat, w := w, ct := ct }
-  match idN with
-  | 0 =>
-    let w' := if w ≤ 0 then 32 else w
-    if w' != 8 && w' != 16 && w' != 32 then .error (-EBACKENDINITERR) else mk 32
-  | 3 => if xorShapeOK k m hd then mk 32 else .error (-EBACKENDINITERR)
-  | 6 => mk 16
-  | 4 | 7 =>
-    -- isa_l_common_init: w defaults to 8, k + m must not exceed 2^w; w is stored as given
-    let w' := if w ≤ 0 then 8 else w
-    if w' ≥ 63 || k + m > (2 : Int) ^ w'.toNat then .error (-EBACKENDINITERR) else mk w'.toNat
-  | _ => .error (-EBACKENDINITERR)
+  if !avail id.toNat then .error (-EBACKENDNOTAVAIL) else
+  match backendInit id.toNat k m w hd with
+  | none => .error (-EBACKENDINITERR)
+  | some w' => .ok { beId := id.toNat, beVer := beVersion id.toNat, k := k.toNat, m := m.toNat, w := w', ct := ct }
 
 end Lec
